@@ -269,23 +269,24 @@ theorem shock_RH_left (g ρ u P p ξ : ℝ) (hρ : 0 < ρ) (hP : 0 < P) (hp : P 
 
 /-- `rarefaction_isentropic`: inside the fan and behind it (star state) the sampled state has the
 entropy of the undisturbed state, `P / ρ^γ` constant (stated without division:
-`P' ρ^γ = P ρ'^γ`); right and left rarefaction -/
+`P' ρ^γ = P ρ'^γ`), at EVERY sampling speed (the code clamps the fan base at zero); right and left
+rarefaction -/
 theorem rarefaction_isentropic (g ρ u P p ustar ξ : ℝ) (hρ : 0 < ρ) (hP : 0 < P) (hp : 0 ≤ p) :
     let c := mkConsts g
     let a := soundspeed c (1.0 / ρ) P
-    (0 ≤ baseR c u a ξ → (fanR c ρ u P a ξ 5).P * ρ ^ c.gamma = P * (fanR c ρ u P a ξ 5).rho ^ c.gamma) ∧
-    (0 ≤ baseL c u a ξ → (fanL c ρ u P a ξ 9).P * ρ ^ c.gamma = P * (fanL c ρ u P a ξ 9).rho ^ c.gamma) ∧
+    (fanR c ρ u P a ξ 5).P * ρ ^ c.gamma = P * (fanR c ρ u P a ξ 5).rho ^ c.gamma ∧
+    (fanL c ρ u P a ξ 9).P * ρ ^ c.gamma = P * (fanL c ρ u P a ξ 9).rho ^ c.gamma ∧
     (starRarefaction c ρ (1.0 / P) ustar p 4).P * ρ ^ c.gamma
       = P * (starRarefaction c ρ (1.0 / P) ustar p 4).rho ^ c.gamma := by
   intro c a
   have hc := mk_rel g
-  refine ⟨fun hb => ?_, fun hb => ?_, ?_⟩
-  · rw [fanR_eq]; exact isentropic_of_base hc hρ.le hb
-  · rw [fanL_eq]; exact isentropic_of_base hc hρ.le hb
+  refine ⟨?_, ?_, ?_⟩
+  · rw [fanR_eq]; exact isentropic_of_base hc hρ.le (baseR_nonneg' c u a ξ)
+  · rw [fanL_eq]; exact isentropic_of_base hc hρ.le (baseL_nonneg' c u a ξ)
   · exact isentropic_star hc (stateOK_of_solve hc hρ hP) hp
 
 /-- `rarefaction_invariant` and `fan_characteristic` (right): inside the right fan (where the
-`base` of the formula is positive) the sound speed of the sampled state is `a · base`, the
+`base` of the formula — clamped at zero by the code — is positive) the sound speed of the sampled state is `a · base`, the
 Riemann invariant `u - 2a/(γ-1)` has the value of the right state, and `u + a = ξ` -/
 theorem fan_right (g ρ u P ξ : ℝ) (hρ : 0 < ρ) (hP : 0 < P) :
     let c := mkConsts g
@@ -301,8 +302,8 @@ theorem fan_right (g ρ u P ξ : ℝ) (hρ : 0 < ρ) (hP : 0 < P) :
   have hs : soundspeed c (1.0 / s.rho) s.P = a * baseR c u a ξ := by
     simp only [s, fanR_eq]; exact soundspeed_of_base hc hst hb
   refine ⟨hs, ?_, ?_⟩
-  · rw [hs]; simp only [s, fanR_eq]; exact fanR_invariant hc hst.a_pos u ξ
-  · rw [hs]; simp only [s, fanR_eq]; exact fanR_characteristic hc hst.a_pos u ξ
+  · rw [hs]; simp only [s, fanR_eq]; exact fanR_invariant hc hst.a_pos u hb
+  · rw [hs]; simp only [s, fanR_eq]; exact fanR_characteristic hc hst.a_pos u hb
 
 /-- the same for the left fan: `u + 2a/(γ-1)` constant and `u - a = ξ` -/
 theorem fan_left (g ρ u P ξ : ℝ) (hρ : 0 < ρ) (hP : 0 < P) :
@@ -319,8 +320,8 @@ theorem fan_left (g ρ u P ξ : ℝ) (hρ : 0 < ρ) (hP : 0 < P) :
   have hs : soundspeed c (1.0 / s.rho) s.P = a * baseL c u a ξ := by
     simp only [s, fanL_eq]; exact soundspeed_of_base hc hst hb
   refine ⟨hs, ?_, ?_⟩
-  · rw [hs]; simp only [s, fanL_eq]; exact fanL_invariant hc hst.a_pos u ξ
-  · rw [hs]; simp only [s, fanL_eq]; exact fanL_characteristic hc hst.a_pos u ξ
+  · rw [hs]; simp only [s, fanL_eq]; exact fanL_invariant hc hst.a_pos u hb
+  · rw [hs]; simp only [s, fanL_eq]; exact fanL_characteristic hc hst.a_pos u hb
 
 /-- inside the fan the `base` IS positive: between tail and head of a right rarefaction with
 `p* > 0`, `u* = u_R + f_R(p*)` (so the hypothesis of `fan_right` holds wherever the sampler
@@ -332,15 +333,16 @@ theorem fan_right_base_pos (g ρ u P p ustar ξ : ℝ) (hρ : 0 < ρ) (hP : 0 < 
   intro c a hs hξ
   have hc : CRel c := mk_rel g
   have hst : StateOK c ρ P (1.0 / P) a := stateOK_of_solve hc hρ hP
-  have h1 : baseR c u a (tailR c a (1.0 / P) ustar p) = (p * (1.0 / P)) ^ c.gm1d2g :=
-    baseR_tail hc hst.a_pos hs
+  have h1 : baseR0 c u a (tailR c a (1.0 / P) ustar p) = (p * (1.0 / P)) ^ c.gm1d2g :=
+    baseR0_tail hc hst.a_pos hs
   have hpos : 0 < (p * (1.0 / P)) ^ c.gm1d2g := Real.rpow_pos_of_pos (mul_pos hp hst.Pinv_pos) _
-  have hmono : baseR c u a (tailR c a (1.0 / P) ustar p) ≤ baseR c u a ξ := by
-    unfold baseR
+  have hmono : baseR0 c u a (tailR c a (1.0 / P) ustar p) ≤ baseR0 c u a ξ := by
+    unfold baseR0
     have := div_le_div_of_nonneg_right (mul_le_mul_of_nonneg_left
       (sub_le_sub_left hξ u) hc.gm1dgp1_pos.le) hst.a_pos.le
     linarith
-  linarith
+  rw [baseR_eq_max]
+  exact lt_of_lt_of_le (by linarith) (le_max_right _ _)
 
 /-- the same for the left fan: between head and tail of a left rarefaction with `p* > 0`,
 `u* = u_L - f_L(p*)` -/
@@ -351,15 +353,16 @@ theorem fan_left_base_pos (g ρ u P p ustar ξ : ℝ) (hρ : 0 < ρ) (hP : 0 < P
   intro c a hs hξ
   have hc : CRel c := mk_rel g
   have hst : StateOK c ρ P (1.0 / P) a := stateOK_of_solve hc hρ hP
-  have h1 : baseL c u a (tailL c a (1.0 / P) ustar p) = (p * (1.0 / P)) ^ c.gm1d2g :=
-    baseL_tail hc hst.a_pos hs
+  have h1 : baseL0 c u a (tailL c a (1.0 / P) ustar p) = (p * (1.0 / P)) ^ c.gm1d2g :=
+    baseL0_tail hc hst.a_pos hs
   have hpos : 0 < (p * (1.0 / P)) ^ c.gm1d2g := Real.rpow_pos_of_pos (mul_pos hp hst.Pinv_pos) _
-  have hmono : baseL c u a (tailL c a (1.0 / P) ustar p) ≤ baseL c u a ξ := by
-    unfold baseL
+  have hmono : baseL0 c u a (tailL c a (1.0 / P) ustar p) ≤ baseL0 c u a ξ := by
+    unfold baseL0
     have := div_le_div_of_nonneg_right (mul_le_mul_of_nonneg_left
       (sub_le_sub_left hξ u) hc.gm1dgp1_pos.le) hst.a_pos.le
     linarith
-  linarith
+  rw [baseL_eq_max]
+  exact lt_of_lt_of_le (by linarith) (le_max_right _ _)
 
 /-- the invariant also holds for the star state behind a right / left rarefaction -/
 theorem rarefaction_invariant_star (g ρ u P p : ℝ) (hρ : 0 < ρ) (hP : 0 < P) (hp : 0 < p) :
